@@ -37,6 +37,14 @@ def _partition(exprs, gran):
     return [exprs[s:s + gran] for s in range(0, len(exprs), gran)]
 
 
+def _log_mutator_exception(mutator, e):
+    """Report an exception raised by ``mutator``, which only costs the
+    candidates of this mutator (as in strategy hierarchical)."""
+    logging.info(f'{type(e)} in application of {mutator}: {e}')
+    exc_type, exc_value, exc_traceback = sys.exc_info()
+    traceback.print_tb(exc_traceback, limit=10, file=sys.stderr)
+
+
 class TaskGenerator:
     """Filter ``exprs`` based on ``mutator`` and generates tasks."""
 
@@ -48,8 +56,7 @@ class TaskGenerator:
         self.stopped = False
 
         # Filter nodes and partition into subsets of size ``gran``.
-        filter_func = getattr(mutator, 'filter', lambda x: True)
-        filtered = list(nodes.filter_nodes(exprs, filter_func, max_depth))
+        filtered = list(nodes.filter_nodes(exprs, self.__filter, max_depth))
         self.num_filtered = len(filtered)
         self.gran = len(filtered) if gran is None else gran
         self.subsets = _partition(filtered, self.gran) if self.gran else []
@@ -59,6 +66,14 @@ class TaskGenerator:
             self.pickled_exprs = pickle.dumps(exprs)
         else:
             self.pickled_exprs = None
+
+    def __filter(self, node):
+        """Apply the filter of the mutator, if any, to ``node``."""
+        try:
+            return getattr(self.mutator, 'filter', lambda x: True)(node)
+        except Exception as e:
+            _log_mutator_exception(self.mutator, e)
+            return False
 
     def __iter__(self):
         return self
@@ -72,11 +87,15 @@ class TaskGenerator:
             # Filter nodes in subset in order to ensure that the mutator still
             # applies after updating ``self.exprs`` via ``self.update``.
             subset = self.subsets[task_id]
-            subset = [n for n in subset if self.mutator.filter(n)]
+            subset = [n for n in subset if self.__filter(n)]
             if not subset:
                 continue
 
-            simps = self.__get_substs(subset)
+            try:
+                simps = self.__get_substs(subset)
+            except Exception as e:
+                _log_mutator_exception(self.mutator, e)
+                continue
 
             if not simps:
                 continue
